@@ -7,7 +7,8 @@ import random
 import sys
 import warnings
 
-import autograd.numpy as anp  # noqa: F401
+import numpy as onp
+import autograd.numpy as anp
 from autograd import grad, make_vjp, make_jvp
 from autograd.core import primitive, defvjp, defvjp_argnum, defvjp_argnums, defjvp, defjvp_argnum, def_linear
 from autograd.differential_operators import checkpoint
@@ -25,35 +26,38 @@ def new_prim():
     def p(*args, **kw):
         r = 1.0
         for a in args:
-            r = r * a
+            r = r * anp.sum(a)
         return r * kw.get("scale", 1.0)
     return p
 
 
 def vjp_case(rng):
+    """argument k is an array of shape (k+1,), so the space every returned cotangent lives in is observable"""
     n = rng.randint(1, 5)
     api = rng.choice(["defvjp", "defvjp", "defvjp", "argnum", "argnums"])
     p = new_prim()
-    xs = [float(rng.choice([1, 2, 3, -1, -2])) for _ in range(n)]
+    xs = [onp.array([float(rng.choice([1, 2, 3, -1, -2])) for _ in range(k + 1)]) for k in range(n)]
     kw = {"scale": float(rng.choice([1, 2]))} if rng.random() < 0.4 else {}
     log = []
     makers, argnums_kw = [], None
 
-    def rule(rid):
+    def rule(rid, pos):
         def maker(ans, *args, **kwargs):
-            log.append((rid, float(ans) if not isbox(ans) else "box", [isbox(a) for a in args],
-                        [float(impl_l2.getval(a)) if False else None for a in args], dict(kwargs)))
-            return lambda g: g * float(CODE[rid])
+            log.append((rid, float(ans) if not isbox(ans) else "box", [isbox(a) for a in args], dict(kwargs),
+                        all(onp.shape(a) == (i + 1,) for i, a in enumerate(args))))
+            return lambda g: g * float(CODE[rid]) * onp.ones(pos + 1)
         return maker
 
     if api == "defvjp":
         m = rng.randint(0, n)
-        makers = [("r", rng.randrange(10)) if rng.random() < 0.75 else ("n",) for _ in range(m)]
-        if rng.random() < 0.4 and m:
+        makers = [("r", rng.randrange(10)) if rng.random() < 0.7 else ("n",) for _ in range(m)]
+        positions = list(range(m))
+        if rng.random() < 0.5 and m:
             argnums_kw = [rng.randrange(n) for _ in range(m)] if rng.random() < 0.3 else \
-                sorted(rng.sample(range(n), min(m, n)))[:m]
+                rng.sample(range(n), min(m, n))
             makers = makers[:len(argnums_kw)]
-        fns = [rule(mk[1]) if mk[0] == "r" else None for mk in makers]
+            positions = list(argnums_kw)
+        fns = [rule(mk[1], pos) if mk[0] == "r" else None for mk, pos in zip(makers, positions)]
         if argnums_kw is not None:
             defvjp(p, *fns, argnums=argnums_kw)
         else:
@@ -63,17 +67,16 @@ def vjp_case(rng):
         makers = [("r", rid)]
 
         def maker(argnum, ans, args, kwargs):
-            log.append((rid, float(ans) if not isbox(ans) else "box", [isbox(a) for a in args], argnum, dict(kwargs)))
-            return lambda g: g * float(CODE[rid])
+            log.append((rid, float(ans) if not isbox(ans) else "box", [isbox(a) for a in args], dict(kwargs), True))
+            return lambda g: g * float(CODE[rid]) * onp.ones(argnum + 1)
         defvjp_argnum(p, maker)
     else:
         rid = rng.randrange(10)
         makers = [("r", rid)]
 
         def maker(argnums, ans, args, kwargs):
-            log.append((rid, float(ans) if not isbox(ans) else "box", [isbox(a) for a in args], list(argnums),
-                        dict(kwargs)))
-            return lambda g: tuple(g * float(CODE[rid]) for _ in argnums)
+            log.append((rid, float(ans) if not isbox(ans) else "box", [isbox(a) for a in args], dict(kwargs), True))
+            return lambda g: tuple(g * float(CODE[rid]) * onp.ones(a + 1) for a in argnums)
         defvjp_argnums(p, maker)
     k = rng.randint(1, n)
     diff = sorted(rng.sample(range(n), k))
@@ -85,21 +88,28 @@ def vjp_case(rng):
             args[pos] = t[i]
         return p(*args, **kw)
 
-    plain = f(tuple(xs[i] for i in diff))
+    plain = float(f(tuple(xs[i] for i in diff)))
     contract_ok = True
     try:
         vjp, val = make_vjp(f)(tuple(xs[i] for i in diff))
-        res = [float(v) for v in vjp(g)]
-        contract_ok = (float(val) == plain)
+        raw = vjp(g)
+        res = []
+        for pos, v in zip(diff, raw):
+            va = onp.asarray(v)
+            # each cotangent lives in the space of the argument it is routed to
+            if va.shape != (pos + 1,) or not onp.all(va == va.ravel()[0]):
+                contract_ok = False
+            res.append(float(va.ravel()[0]))
+        if float(val) != plain:
+            contract_ok = False
         for entry in log:
             # the rule sees the primitive's output, the original argument values unboxed, and the kwargs
-            if entry[1] != plain or any(entry[2]) or entry[-1] != kw:
+            if entry[1] != plain or any(entry[2]) or entry[3] != kw or not entry[4]:
                 contract_ok = False
     except Exception as ex:
         res = None
         if not isinstance(ex, (NotImplementedError, KeyError)):
             contract_ok = False
-    # python-side oracle of the contract (dict semantics: later duplicates win)
     return {"api": api, "n": n, "argnums_kw": argnums_kw, "makers": makers, "diff": diff, "g": int(g),
             "impl": None if res is None else [int(v) for v in res], "contract_ok": contract_ok}
 
